@@ -12,6 +12,16 @@ COMMON_NOTE = ("Trusted: Lean 4.33 kernel; axioms ⊆ {propext, Classical.choice
 
 # id -> (technique, level text, level note extra, design_ref)
 CHECKS = {
+    "C01": ("Lean 4 proof by induction over the block list of a hand model of read_plan + differential correspondence "
+            "on real multi-file SIGPROC sets + independent concatenation oracle",
+            "Theorem plan_covers: for all gulp/start/nsamps/skipback/N the model of the generator either yields nothing "
+            "and raises ValueError, or its blocks laid end to end are exactly samples [start,start+nsamps) once each, "
+            "in order, each block ≤ gulp and inside the range; rejection is forced for skipback ≥ gulp and excluded for "
+            "skipback ≤ gulp/2. Unbounded in every parameter, which sampling cannot reach.",
+            "Hand-written model (Model/Plan.lean) tied to readers.py by the correspondence run over depths 1-32, 1-3 "
+            "files and all plan regimes; the flat-stream abstraction is justified by C02. Buffer-view semantics of the "
+            "yielded array and files whose data section is not a whole number of samples are outside the model.",
+            "§5 C01"),
     "C03": ("Lean 4 proof over kernels regenerated from source (decide +kernel on the full per-byte domain, induction "
             "over array length) + exhaustive per-byte correspondence",
             "Theorems pack∘unpack=id, unpack∘pack=id, unpack=bit-field definition for arrays of every length, about "
